@@ -190,7 +190,21 @@ POLICY_DRIFT = {'records': 0, 'samples': []}      # records where the implementa
 
 
 def tlc_validate(trace_module, tconsts, prop, shard, workdir, tag, extra_env=None, timeout=1800):
-    """(C): validate one shard; returns None if accepted, else (index, record)."""
+    """(C): validate one shard; returns None if accepted, else (index, record).  A run that ends WITHOUT a verdict (the JVM
+    was killed, out of memory or disk on a loaded machine) is repeated twice before it is reported as a tool error."""
+    last = None
+    for attempt in range(3):
+        try:
+            return _tlc_validate_once(trace_module, tconsts, prop, shard, workdir, tag, extra_env, timeout)
+        except ToolError as e:
+            last = e
+            if 'without a verdict' not in str(e) or 'Attempted to' in str(e) or 'was evaluating' in str(e):
+                raise           # an evaluation error of the specification is deterministic: do not retry
+            time.sleep(5 * (attempt + 1))
+    raise last
+
+
+def _tlc_validate_once(trace_module, tconsts, prop, shard, workdir, tag, extra_env=None, timeout=1800):
     cfg = os.path.join(workdir, tag + '.cfg')
     if not os.path.exists(cfg):
         write_cfg(cfg, 'TSpec', tconsts, post='Accepted')
